@@ -115,6 +115,8 @@ impl InnerLiterals {
         }
         let hir = Hir::alternation(alts);
         log::debug!("extracted fast line regex: {:?}", hir.to_string());
+        #[cfg(feature = "verif-hooks")]
+        VERIF_FAST_LINE_HIR.with(|c| *c.borrow_mut() = Some(hir.clone()));
         let re = Regex::builder()
             .configure(Regex::config().utf8_empty(false))
             .build_from_hir(&hir)
@@ -641,6 +643,37 @@ fn is_poisonous(lit: &Literal) -> bool {
     use regex_syntax::hir::literal::rank;
 
     lit.is_empty() || (lit.len() == 1 && rank(lit.as_bytes()[0]) >= 250)
+}
+
+#[cfg(feature = "verif-hooks")]
+thread_local! {
+    static VERIF_FAST_LINE_HIR: std::cell::RefCell<Option<Hir>> =
+        std::cell::RefCell::new(None);
+    static VERIF_FINAL_HIR: std::cell::RefCell<Option<Hir>> =
+        std::cell::RefCell::new(None);
+}
+
+/// Record the HIR a matcher was compiled from (verification hook).
+#[cfg(feature = "verif-hooks")]
+pub(crate) fn verif_record_final_hir(hir: &Hir) {
+    VERIF_FINAL_HIR.with(|c| *c.borrow_mut() = Some(hir.clone()));
+}
+
+/// Take the HIRs recorded by the most recent successful matcher build on
+/// this thread: the final HIR and, if one was built, the fast line regex's
+/// (verification hook).
+#[cfg(feature = "verif-hooks")]
+pub fn verif_take_last_build() -> Option<(Hir, Option<Hir>)> {
+    let fast = VERIF_FAST_LINE_HIR.with(|c| c.borrow_mut().take());
+    VERIF_FINAL_HIR.with(|c| c.borrow_mut().take()).map(|h| (h, fast))
+}
+
+/// Run the inner literal extractor on the given HIR (verification hook).
+#[cfg(feature = "verif-hooks")]
+pub fn verif_extract(hir: &Hir) -> Option<Vec<Vec<u8>>> {
+    let seq = Extractor::new().extract_untagged(hir);
+    seq.literals()
+        .map(|lits| lits.iter().map(|l| l.as_bytes().to_vec()).collect())
 }
 
 #[cfg(test)]
